@@ -15,6 +15,8 @@ from ..tree import Tree
 PROPERTY = "C02"
 LEVEL = "exploration"
 RULE = (
+    "Guards are table guards, alone or under not/and/or (so that several candidates of one list share a guard type but "
+    "not the operands). "
     "Generated machines (depth<=3, parallel regions, same-depth candidate lists of 1-3 guarded transitions, handlers on "
     "ancestors shared by regions, long state keys at shallow depth, null transitions, '*' handlers; table-driven guards "
     "true/false/raising per epoch) x histories of <=12 sends (handled, unhandled 'ZZ', ancestor-only, multi-region), each "
